@@ -12,7 +12,8 @@ ANCHORS = ['bip32:PrvKeyNode.ckd', 'bip32:PubKeyNode.derive_path', 'bip32:PrvKey
 RULE = ("seeded generator over (parent scalar class x chain-code class x depth x index class x "
         "construction form) with boundary corpora; PRF corners via chosen-output stub; distinct = "
         "distinct (monitor, exact case) digests; every case is non-trivial (a full CKDpriv "
-        "recomputed by the independent model and compared field by field and as printed strings)")
+        "recomputed by the independent model and compared field by field and as printed strings)"
+        " EXTENSIONS: + parents as temporaries (orphan), copies / pickles of the derived node, index paths as tuple / iterator / generator, parents parsed from streams at an offset / as second record, 2^19+600 further derivations on the parent of a held child (fast mode)")
 LEVEL_TEXT = ("Every PrvKeyNode.ckd execution (direct, via derive_path, and with the PRF substituted by a chosen-output "
               "stub) is adjudicated by an independent CKDpriv model: child scalar as integer and as the 32-byte field of the "
               "printed xprv, chain code, depth, child number, parent fingerprint, network flag, PRF input layout. Held on K "
@@ -327,6 +328,12 @@ def run(ctx):
             judge_derive_path(ctx, case)
     finally:
         inst.remove()
+    # what a derived node prints (parent fingerprint, extended keys) after its parent has served 2^19 + 600 further derivations
+    # (fast mode, see c13.judge_capacity / inject.FastEC): run without the probes
+    if ctx.mine_once(2):
+        from .c13 import judge_capacity
+        judge_capacity(ctx, {"seed": gen.rbytes(rnd, 32), "testnet": bool(ctx.seed & 1), "kind": "private",
+                             "n": (1 << 19) + 600 if not ctx.thorough else (1 << 21) + 600, "fast": True, "how": "mixed"})
 
 
 def replay(ctx, monitor, case):
@@ -335,6 +342,9 @@ def replay(ctx, monitor, case):
         if monitor in ("ckd_priv_prf", "prf_layout"):
             pstate["stubbed"] = True
             judge_ckd_priv_prf(ctx, case)
+        elif monitor == "capacity":
+            from .c13 import judge_capacity
+            judge_capacity(ctx, case)
         elif monitor == "derive_path":
             judge_derive_path(ctx, case)
         else:
